@@ -67,7 +67,8 @@ def main():
         for c in checks:
             t = time.time()
             env = dict(os.environ, VERIF_REPO=scratch, VERIF_EVIDENCE_DIR=evdir, VERIF_REPLAY_DIR=os.path.join(scratch, "replays"))
-            rc, out = sh([PY, "-m", "mc", c, "--tier", "quick"], cwd=VERIF, env=env)
+            # VERIF_MC_ROOT: run the checks of another checkout of /verif (e.g. a worktree of the last commit, for an unbiased first pass)
+            rc, out = sh([PY, "-m", "mc", c, "--tier", "quick"], cwd=os.environ.get("VERIF_MC_ROOT", VERIF), env=env)
             lines = [l for l in out.splitlines() if l.startswith("VIOLATION") or l.startswith("  #") or l.startswith("[C") or l.startswith("HARNESS")]
             res["checks"][c] = {"rc": rc, "detected": rc == 1, "wall_s": round(time.time() - t, 1),
                                 "violations": [re.sub(r"replay=\S+", "replay=<scratch>", l)[:400] for l in lines[:8]]}
